@@ -2,6 +2,7 @@ package main
 
 import (
 	"fmt"
+	"math/big"
 	"go/ast"
 	"go/token"
 	"go/types"
@@ -276,13 +277,21 @@ func (ex *exec) lemma(st *State, goal *Term, label string, pos token.Pos) bool {
 	if ex.lemmaDepth > 0 {
 		hyps = sliceHyps(st.pc, goal, ex.lemmaDepth)
 	}
-	q := BuildQuery(hyps, goal, ex.ct != nil && ex.ct.Opaque)
+	q := BuildQuery(hyps, goal, ex.ct != nil && ex.ct.Opaque, ex.abstractSpecs())
 	ex.eng.lemmaMu.Lock()
 	r, ok := ex.eng.lemmaMemo[q.Text]
 	ex.eng.lemmaMu.Unlock()
 	if !ok {
-		res := Solve(q, 10, false)
+		t0 := time.Now()
+		to := 10
+		if ex.lemmaTimeout > 0 {
+			to = ex.lemmaTimeout
+		}
+		res := Solve(q, to, false)
 		r = res.Verdict == Proved
+		if os.Getenv("GOVC_DEBUG") != "" {
+			fmt.Fprintf(os.Stderr, "lemma %s %s: %v %.1fs\n", label, ex.pos(pos), res.Verdict, time.Since(t0).Seconds())
+		}
 		ex.eng.lemmaMu.Lock()
 		ex.eng.lemmaMemo[q.Text] = r
 		ex.eng.lemmaMu.Unlock()
@@ -309,7 +318,7 @@ func (ex *exec) taintCall(st *State, key string, fn *types.Func, recv Value, arg
 
 func (ex *exec) applyContract(st *State, ct *Contract, fn *types.Func, recv Value, args []Value, call *ast.CallExpr) Value {
 	sig := fn.Type().(*types.Signature)
-	if ex.mode == ModeInt {
+	if ex.mode == ModeInt && !strings.Contains(ct.Key, "#") {
 		if v, ok := ex.eng.contracts[ct.Key+"#int"]; ok {
 			ct = v // numeric view of a contract proved in bit-vector mode (bridging lemma listed as trusted)
 		}
@@ -341,6 +350,31 @@ func (ex *exec) applyContract(st *State, ct *Contract, fn *types.Func, recv Valu
 			n = fmt.Sprintf("arg%d", i)
 		}
 		names[n] = args[i]
+	}
+	// logical (specification) variables of the callee: instantiated by the caller's `inst`
+	// clause for this callee, or by the caller's logical variable of the same name
+	if len(ct.Logical) > 0 {
+		var insts map[string]ast.Expr
+		if cc := ex.eng.contracts[ex.fr().fi.Key]; cc != nil {
+			k := ct.Key
+			if i := strings.Index(k, "#"); i >= 0 {
+				k = k[:i]
+			}
+			insts = cc.Inst[k]
+		}
+		saved := ex.midBody
+		ex.midBody = true
+		cenv := ex.newSpecEnv(st, ex.fr(), nil)
+		ex.midBody = saved
+		for _, lv := range ct.Logical {
+			if e, ok := insts[lv.Name]; ok {
+				names[lv.Name] = cenv.eval(e)
+			} else if v, ok := ex.fr().params[lv.Name]; ok {
+				names[lv.Name] = v
+			} else {
+				ex.fail(call.Pos(), "call to %s: no instantiation for its logical variable %s", ct.Key, lv.Name)
+			}
+		}
 	}
 	pre := st.clone()
 	callSerial := freshSerial
@@ -404,6 +438,11 @@ func (ex *exec) applyContract(st *State, ct *Contract, fn *types.Func, recv Valu
 							break
 						}
 					}
+					if _, isSlice := rv.Type().Underlying().(*types.Slice); isSlice {
+						// undecided: treat the result as a fresh slice; the regions the callee may
+						// write (its assigns clause) have been havocked, so frames stay sound
+						break
+					}
 					ex.fail(call.Pos(), "call to %s: returns_if condition undecided at the call site; add a case split to the caller", ct.Key)
 				}
 			}
@@ -449,6 +488,9 @@ func (ex *exec) applyContract(st *State, ct *Contract, fn *types.Func, recv Valu
 		// definitional binding: `v == rhs` for a variable v introduced by this call (havocked
 		// location, fresh result, ghost) defines v; substitute instead of keeping an equation
 		for _, c := range conjuncts(t) {
+			if len(bind) > 0 {
+				c = Subst(c, bind)
+			}
 			if c.Op == "=" {
 				a, b := c.Args[0], c.Args[1]
 				if !(a.Op == "var" && freshBorn[a] > serial0) {
@@ -482,8 +524,9 @@ func (ex *exec) applyContract(st *State, ct *Contract, fn *types.Func, recv Valu
 			st.assume(c)
 		}
 	}
-	if len(ct.Ensures) > 0 && !st.infeasible() {
-		// vacuity guard: assuming the callee's postcondition must not make the path contradictory
+	if len(ct.Ensures) > 0 && !st.infeasible() && !(ex.ct != nil && ex.ct.Opaque) {
+		// vacuity guard (skipped where products are opaque: satisfiability of those
+		// path conditions is out of the solvers' reach, the cover would always be inconclusive): assuming the callee's postcondition must not make the path contradictory
 		o := &Oblig{Name: fmt.Sprintf("%s/cover:after-call:%s", ex.root.Key, ct.Key), Func: ex.root.Key, Kind: "cover", Label: "after-call", Hyps: append([]*Term{}, st.pc...), Goal: False, Pos: ex.pos(call.Pos()), PreHyps: prePC}
 		if ex.tag != "" {
 			o.Name += "@" + ex.tag
@@ -533,6 +576,9 @@ func (ex *exec) havocSpecTarget(st *State, env *specEnv, a ast.Expr, pos token.P
 	if c, ok := a.(*ast.CallExpr); ok {
 		if id, ok := c.Fun.(*ast.Ident); ok {
 			if gd, ok := ex.eng.ghosts[id.Name]; ok && !gd.Var {
+				if gd.Rep != nil && ex.root.Pkg.Name == gd.HomePkg {
+					return // represented by concrete state here
+				}
 				if p, ok := env.eval(c.Args[0]).(*Ptr); ok && p.Obj != nil {
 					ex.bumpGhost(st, p.Obj)
 				}
@@ -660,6 +706,14 @@ func (eng *Engine) VerifyFunc(key string) (rep *FuncReport) {
 		}
 	}
 	rep.Status = "ok"
+	abs := ex.abstractSpecs()
+	for _, o := range ex.obligs {
+		if !o.NoAbstract {
+			o.Abstract = abs
+		} else if abs["sm3_cf"] {
+			o.Abstract = map[string]bool{"sm3_cf": true} // the compression function itself stays opaque
+		}
+	}
 	rep.Obligs = ex.obligs
 	for k := range ex.inlinedFns {
 		rep.Inlined = append(rep.Inlined, k)
@@ -787,6 +841,9 @@ func (ex *exec) runCase(fi *FuncInfo, ct *Contract, ac aliasCase) {
 		}
 	}
 	fr.results = ex.declareResults(st, fi)
+	for _, lv := range ct.Logical {
+		fr.params[lv.Name] = ex.freshLogical(st, lv)
+	}
 	for _, g := range ex.globalFacts {
 		st.assume(g)
 	}
@@ -794,10 +851,21 @@ func (ex *exec) runCase(fi *FuncInfo, ct *Contract, ac aliasCase) {
 		if gf.Pkg != fi.Pkg.Name {
 			continue
 		}
-		env := ex.newSpecEnv(st, fr, nil)
-		env.assume = true
-		st.assume(env.toBool(env.eval(gf.Clause.Expr)))
-		ex.usedGlobalFacts[gf.Clause.Label] = true
+		// a fact that cannot be evaluated here (identifier gone, wrong mode) is simply not used
+		func() {
+			defer func() {
+				if r := recover(); r != nil {
+					if _, ok := r.(unsupported); !ok {
+						panic(r)
+					}
+				}
+			}()
+			env := ex.newSpecEnv(st, fr, nil)
+			env.assume = true
+			t := env.toBool(env.eval(gf.Clause.Expr))
+			st.assume(t)
+			ex.usedGlobalFacts[gf.Clause.Label] = true
+		}()
 	}
 	if ct.Mode == ModeInt {
 		for _, ax := range ex.eng.axioms {
@@ -819,7 +887,9 @@ func (ex *exec) runCase(fi *FuncInfo, ct *Contract, ac aliasCase) {
 	for _, r := range ct.Requires {
 		env := ex.newSpecEnv(st, fr, nil)
 		env.assume = true
-		st.assume(env.toBool(env.eval(r.Expr)))
+		t := env.toBool(env.eval(r.Expr))
+		st.assume(t)
+		st.name("req:"+r.Label, t)
 	}
 	ex.mulLog = nil
 	for _, f := range ct.Facts {
@@ -856,6 +926,7 @@ func (ex *exec) runCase(fi *FuncInfo, ct *Contract, ac aliasCase) {
 		fr.loopOrd = 0
 		fr.entry = cst.clone()
 		ex.allowed = nil
+		ex.copyN = 0
 		outs := ex.execBlock(cst, fi.Decl.Body.List)
 		for _, o := range outs {
 			switch o.kind {
@@ -863,7 +934,9 @@ func (ex *exec) runCase(fi *FuncInfo, ct *Contract, ac aliasCase) {
 				if o.kind == ONormal && sig.Results().Len() > 0 {
 					ex.fail(fi.Decl.Pos(), "missing return")
 				}
-				ex.cover(o.st, "return", o.pos)
+				if !ct.Opaque {
+					ex.cover(o.st, "return", o.pos)
+				}
 				ex.checkPost(o, fi, ct, fr)
 			case OPanic:
 				var conds []*Term
@@ -913,6 +986,7 @@ func (ex *exec) checkPost(o *Outcome, fi *FuncInfo, ct *Contract, fr *frame) {
 		}
 	}
 	proved := map[string]*Term{}
+	provedDefs := map[string][]*Term{} // definitional facts introduced while evaluating a labelled ensures
 	for _, e := range ct.Ensures {
 		if e.Trusted {
 			ex.trustedClauses[ct.Key+"/"+e.Label+": "+e.Src] = true
@@ -920,26 +994,43 @@ func (ex *exec) checkPost(o *Outcome, fi *FuncInfo, ct *Contract, fr *frame) {
 		}
 		env := ex.newSpecEnv(st, fr, extra)
 		env.witness = ct.Witness
+		npc0 := len(st.pc)
 		g := env.toBool(env.eval(e.Expr))
+		ownDefs := append([]*Term{}, st.pc[npc0:]...)
 		ost := st.clone()
 		if len(e.From) > 0 {
 			// structured proof step: only the entry assumptions and the named, already
 			// established postconditions are used as hypotheses
 			ost.pc = append([]*Term{}, fr.entry.pc...)
+			for _, p := range st.pc {
+				if !hasQuantifier(p) && termSize(p, 60) < 60 {
+					ost.pc = append(ost.pc, p)
+				}
+			}
+			ost.pc = append(ost.pc, ownDefs...)
 			for _, f := range e.From {
 				if f == "-" {
 					continue
 				}
-				p, ok := proved[f]
-				if !ok {
-					ex.fail(o.pos, "ensures %s: [from %s] refers to no earlier labelled ensures", e.Label, f)
+				if p, ok := proved[f]; ok {
+					ost.assume(p)
+					ost.pc = append(ost.pc, provedDefs[f]...)
+				} else if p, ok := st.named[f]; ok {
+					ost.pc = append(ost.pc, p) // a fact named on this path (requires, invariant, copy, proof step)
 				}
-				ost.assume(p)
+				// a name that does not exist on this path is simply not available
 			}
 		}
+		n0 := len(ex.obligs)
 		ex.oblige(ost, "post", e.Label, g, o.pos)
+		if len(e.From) > 0 {
+			for _, ob := range ex.obligs[n0:] {
+				ob.AltHyps = append([]*Term{}, st.pc...)
+			}
+		}
 		if e.Label != "" {
 			proved[e.Label] = g
+			provedDefs[e.Label] = ownDefs
 		}
 	}
 	if ct.Returns != nil && len(fr.results) > 0 {
@@ -989,6 +1080,18 @@ func (ex *exec) checkFrame(st *State, fi *FuncInfo, ct *Contract, fr *frame, ext
 	env := ex.newSpecEnv(fr.entry, fr, extra)
 	env.old = fr.entry
 	for _, a := range ct.Assigns {
+		if id, ok := a.(*ast.Ident); ok {
+			if gd, ok := ex.eng.ghosts[id.Name]; ok && gd.Var {
+				continue
+			}
+		}
+		if c, ok := a.(*ast.CallExpr); ok {
+			if id, ok := c.Fun.(*ast.Ident); ok {
+				if gd, ok := ex.eng.ghosts[id.Name]; ok && !gd.Var {
+					continue
+				}
+			}
+		}
 		var v Value
 		if s, ok := a.(*ast.StarExpr); ok {
 			v = env.eval(s.X)
@@ -1156,7 +1259,7 @@ func valueEqTerm(a, b Value) *Term {
 // SolveAll discharges the obligations of a report in parallel.
 func (eng *Engine) SolveAll(obs []*Oblig) {
 	var wg sync.WaitGroup
-	sem := make(chan struct{}, 16)
+	sem := make(chan struct{}, 10)
 	for _, o := range obs {
 		if o.Trivial || o.presolved {
 			continue
@@ -1167,12 +1270,12 @@ func (eng *Engine) SolveAll(obs []*Oblig) {
 			defer wg.Done()
 			sem <- struct{}{}
 			defer func() { <-sem }()
-			q := BuildQuery(o.Hyps, o.Goal, o.Opaque)
+			q := BuildQuery(o.Hyps, o.Goal, o.Opaque, o.Abstract)
 			o.query = q
 			if o.Kind == "cover" {
 				// a cover must be satisfiable: sat = covered, unsat = vacuous (failure),
 				// unknown = inconclusive (not a failure, reported as such)
-				o.Res = Solve(q, 5, false)
+				o.Res = Solve(q, 2, false)
 				switch o.Res.Verdict {
 				case Refuted:
 					o.Res.Verdict = Proved
@@ -1183,7 +1286,7 @@ func (eng *Engine) SolveAll(obs []*Oblig) {
 					o.Res.Detail = "vacuous: assumptions are contradictory"
 					if o.PreHyps != nil {
 						// contradictory only if the path was still satisfiable before the call
-						pre := Solve(BuildQuery(o.PreHyps, False, o.Opaque), 5, false)
+						pre := Solve(BuildQuery(o.PreHyps, False, o.Opaque, o.Abstract), 3, false)
 						if pre.Verdict == Proved {
 							o.Res.Verdict = Proved
 							o.Res.Detail = "path already infeasible before the call"
@@ -1209,15 +1312,15 @@ func (eng *Engine) SolveAll(obs []*Oblig) {
 				}
 			}
 			if len(qf) < len(sl) {
-				r := Solve(BuildQuery(qf, o.Goal, o.Opaque), eng.timeoutS/3+1, false)
+				r := Solve(BuildQuery(qf, o.Goal, o.Opaque, o.Abstract), eng.timeoutS/3+1, false)
 				if r.Verdict == Proved {
 					r.Detail = fmt.Sprintf("quantifier-free part of the cone of influence: %d of %d hypotheses", len(qf), len(o.Hyps))
 					o.Res = r
 					return
 				}
 			}
-			if len(sl) < len(o.Hyps) {
-				q2 := BuildQuery(sl, o.Goal, o.Opaque)
+			if len(sl)*5 < len(o.Hyps)*4 {
+				q2 := BuildQuery(sl, o.Goal, o.Opaque, o.Abstract)
 				r := Solve(q2, eng.timeoutS/2+1, false)
 				if r.Verdict == Proved {
 					r.Detail = fmt.Sprintf("cone of influence: %d of %d hypotheses", len(sl), len(o.Hyps))
@@ -1226,9 +1329,51 @@ func (eng *Engine) SolveAll(obs []*Oblig) {
 				}
 			}
 			o.Res = Solve(q, eng.timeoutS, true)
+			if o.Res.Verdict != Proved && o.AltHyps != nil {
+				r := Solve(BuildQuery(o.AltHyps, o.Goal, o.Opaque, o.Abstract), eng.timeoutS, true)
+				if r.Verdict == Proved {
+					r.Detail = "proved from the full path condition (structured attempt failed)"
+				}
+				if r.Verdict != Unknown {
+					o.Res = r
+				} else {
+					o.Res.Verdict = Unknown // a countermodel of the restricted hypotheses is not a countermodel
+					o.Res.Model = ""
+				}
+			}
 		}()
 	}
 	wg.Wait()
+	// an `unknown` may be a time-out caused by load: retry those few with twice the time, two at a time
+	var retry []*Oblig
+	for _, o := range obs {
+		if o.Kind != "cover" && !o.Trivial && !o.presolved && o.Res.Verdict == Unknown {
+			retry = append(retry, o)
+		}
+	}
+	if len(retry) > 0 && len(retry) <= 12 {
+		var wg2 sync.WaitGroup
+		sem2 := make(chan struct{}, 2)
+		for _, o := range retry {
+			wg2.Add(1)
+			o := o
+			go func() {
+				defer wg2.Done()
+				sem2 <- struct{}{}
+				defer func() { <-sem2 }()
+				hy := o.Hyps
+				if o.AltHyps != nil {
+					hy = o.AltHyps
+				}
+				r := Solve(BuildQuery(coneOfInfluence(hy, o.Goal), o.Goal, o.Opaque, o.Abstract), 2*eng.timeoutS, true)
+				if r.Verdict != Unknown {
+					r.Detail = "second attempt (first timed out)"
+					o.Res = r
+				}
+			}()
+		}
+		wg2.Wait()
+	}
 	// return-path covers: a case split makes some return paths infeasible, which is fine;
 	// it is a vacuity failure only if *every* return path of a function case is infeasible
 	type grp struct{ all, vac []*Oblig }
@@ -1460,4 +1605,36 @@ func hasQuantifier(t *Term) bool {
 		return r
 	}
 	return rec(t)
+}
+
+func (ex *exec) abstractSpecs() map[string]bool {
+	if ex.ct == nil || len(ex.ct.AbstractSpecs) == 0 {
+		return nil
+	}
+	m := map[string]bool{}
+	for _, n := range ex.ct.AbstractSpecs {
+		m[n] = true
+	}
+	return m
+}
+
+// freshLogical: a universally quantified specification variable of a contract.
+func (ex *exec) freshLogical(st *State, lv LogicalVar) Value {
+	switch lv.Kind {
+	case "bytes":
+		o := ex.newObj(nil, "logical."+lv.Name, false)
+		var so *Sort
+		if ex.mode == ModeInt {
+			so = ArrSortR(IntSort, IntSort, big.NewInt(0), big.NewInt(255))
+		} else {
+			so = ArrSort(BVSort(64), BVSort(8))
+		}
+		st.heap[o] = Fresh("logical."+lv.Name, so)
+		big := ex.lenBound()
+		return &Slice{Base: &Ptr{Obj: o}, Off: ex.idxConst(0), Len: big, Cap: big, Nil: False}
+	case "int":
+		return Fresh("logical."+lv.Name, ex.idxSort())
+	}
+	ex.fail(token.NoPos, "logical variable kind %s", lv.Kind)
+	return nil
 }
